@@ -11,6 +11,15 @@ from vlib import SPEC
 D = SPEC / "Directives"
 TARGETS = ["a", "a::b", "ab", "b"]
 TFORM = re.compile(r"^[^\[\]=]*\[\{[^\]=]*\}\]=[^=]*$")
+# value tokens of field k: (token as the directive spells it and as the spec compares it, how the script records it)
+VTOK = ["1", "2", "true", "false", "-3", "1.5", "2.5", "abc", "abd"]
+
+
+def recorded(rng, v):
+    """the script-side spelling of a value: the integer 1 may also be recorded as an i64"""
+    return "i:1" if v == "1" and rng.random() < 0.3 else v
+
+
 LNAMES = ["off", "error", "warn", "info", "debug", "trace"]
 
 
@@ -19,7 +28,7 @@ def render_dir(d, rng):
     if d["s"] or d["f"]:
         fld = ""
         if d["f"]:
-            fld = "{" + d["f"] + ("=%d" % d["v"] if d["v"] else "") + "}"
+            fld = "{" + d["f"] + ("=" + d["v"] if d["v"] else "") + "}"
         span = "[" + d["s"] + fld + "]"
     name = LNAMES[d["l"]]
     lvl = rng.choice([name, name.upper(), name.capitalize(), str(d["l"])])
@@ -34,14 +43,15 @@ def render_dir(d, rng):
 def rand_dir(rng, static_only, names, tgts):
     t = rng.choice(tgts)
     if static_only:
-        s, f, v = "", rng.choice(["", "", "", "k"]), 0
+        s, f, v = "", rng.choice(["", "", "", "k"]), ""
     else:
         s = rng.choice(names)
-        f, v = rng.choice([("", 0), ("", 0), ("k", 0), ("k", 1), ("k", 2)])
+        f, v = rng.choice([("", ""), ("", ""), ("k", ""), ("k", "1"), ("k", "2"), ("k", rng.choice(VTOK))])
     return {"t": t, "s": s, "f": f, "v": v, "l": rng.choice([0, 1, 2, 3, 3, 4, 5, 5])}
 
 
-def rand_script(rng):
+def rand_script(rng, vals=()):
+    vals = list(vals)
     ops, state, entered = [{"op": "all"}], {}, []
     for _ in range(rng.randint(3, 12)):
         free = [h for h in (1, 2, 3) if h not in state]
@@ -50,9 +60,9 @@ def rand_script(rng):
         if free and c < 0.35:
             h = rng.choice(free)
             name = rng.choice(["s1", "s1", "s2"])
-            k = rng.choice([0, 1, 1, 2]) if name == "s1" else 0
-            state[h] = name if k == 0 else name + "+"
-            ops.append({"op": "span", "h": h, "lvl": rng.choice([1, 2, 3, 4, 5, 5]), "tgt": rng.choice(TARGETS), "name": name, "k": k})
+            k = rng.choice(["", "1", "1", "2"] + vals) if name == "s1" else ""
+            state[h] = name if k == "" else name + "+"
+            ops.append({"op": "span", "h": h, "lvl": rng.choice([1, 2, 3, 4, 5, 5]), "tgt": rng.choice(TARGETS), "name": name, "k": k, "kt": recorded(rng, k)})
         elif idle and c < 0.65:
             h = rng.choice(idle)
             entered.append(h)
@@ -64,7 +74,8 @@ def rand_script(rng):
             h = rng.choice([x for x in idle])
             if state[h] == "s1":           # a field is recorded once, while the span is not entered
                 state[h] = "s1+"
-                ops.append({"op": "record", "h": h, "k": rng.choice([1, 2])})
+                k = rng.choice(["1", "2"] + vals)
+                ops.append({"op": "record", "h": h, "k": k, "kt": recorded(rng, k)})
         elif idle:
             h = rng.choice(idle)
             del state[h]
@@ -94,7 +105,9 @@ def gen_cases(rng, n):
         s = ",".join(segs)
         # Targets only knows `target[{fields}]=level`; any other bracket form is EnvFilter-only syntax
         tv = any("[" in g and not TFORM.match(g) for g in segs)
-        cases.append({"id": i, "s": s, "dirs": dirs, "tv": tv, "x": rng.randint(0, 5), "script": rand_script(rng)})
+        # the script prefers the values the directives mention (and a near miss)
+        vals = [d["v"] for d in dirs if d["v"]] + [rng.choice(VTOK)]
+        cases.append({"id": i, "s": s, "dirs": dirs, "tv": tv, "x": rng.randint(0, 5), "script": rand_script(rng, vals)})
     return cases
 
 
